@@ -847,9 +847,20 @@ pub fn observe<P: TP, V: Val>(side: &mut Side<P, V>, env: &mut Env, other_model:
 
 fn observe_inner<P: TP, V: Val>(side: &mut Side<P, V>, env: &mut Env, other_model: Option<&Model>) -> R {
     let f = env.focus;
-    // len() is compared with what iteration actually yields (no model involved), so it comes first
+    // oracles that involve no model come first, so that a defect which also loses entries is still
+    // attributed to them: len() vs what iteration actually yields, well-formedness of the walked shape
     if f.has(4) {
         check_len(side, env)?;
+    }
+    if f.has(15) {
+        let s = shape_of(&side.map)?;
+        if let Err(e) = shape_wellformed(&s, P::W) {
+            return fail(
+                "C15",
+                "C15:wellformed",
+                format!("step {} map {}: {} in shape {}", env.step, side.name, e, s.show()),
+            );
+        }
     }
     check_contents(side, env)?;
     if f.has(15) {
